@@ -1,10 +1,15 @@
 """C06 - documents valid by construction are never refused by validation."""
+import copy
+import itertools
 import os
 
 from tfv import core
 from tfv.core import Violation, run_async
 from tfv.model import print_document
+from tfv.impl import clean_registry
+from tfv.mutate import mutants
 from tfv.props import c01
+from tfv.props.c14 import SubHarness
 
 ID = "C06"
 LEVEL = "exploration"
@@ -14,7 +19,9 @@ BUDGET = {"quick": 50, "thorough": 540}
 RULE = (
     "case = generated schema x document valid by construction against all June-2018 rules (incl. field merging), "
     "fragment-heavy generator weights x each operation; oracle = no error with a validation tag, no generic parse "
-    "failure, data equals the reference. Distinct = SHA-1 of the case; non-trivial = the document shares a fragment "
+    "failure, data equals the reference; a quarter of the engines also have a subscription root and the document defines "
+    "subscription operations next to the executed query; 15% of the requests are preceded by a rule-breaking rewrite of the "
+    "same document on the same engine (same names; C07's catalogue), which must leave nothing behind. Distinct = SHA-1 of the case; non-trivial = the document shares a fragment "
     "(spread >= 2 times or reached along >= 2 paths), or has >= 2 operations using the same variable-carrying "
     "fragment, or carries directives in >= 3 location kinds."
 )
@@ -66,7 +73,30 @@ def features(doc):
     return f
 
 
+async def run_poison(h, spec):
+    """a rule-breaking rewrite of the same document (same fragment / operation / variable names), sent first: whatever the
+    engine answers (C07 judges that), nothing of it may stay behind and get the valid document refused"""
+    text = print_document(spec["poison"]).text
+    try:
+        await h.engine.execute(text, operation_name=spec["op"], context=h.ctx_token, variables=copy.deepcopy(spec["variables"]))
+    except Exception:  # noqa - not this property's business
+        pass
+
+
+def make_harness(schema, plan):
+    if schema["roots"].get("subscription"):
+        clean_registry()
+        h = SubHarness(schema, plan, None)
+        run_async(h.build(**(plan.get("engine_kwargs") or {})))
+        return h
+    return run_async(c01.make_harness(schema, plan))
+
+
 def check(spec, chooser=None, h=None):
+    if h is None:
+        h = make_harness(spec["schema"], spec["plan"])
+    if spec.get("poison"):
+        run_async(run_poison(h, spec))
     try:
         flags = c01.check(spec, chooser, h)
     except Violation as v:
@@ -77,12 +107,31 @@ def check(spec, chooser=None, h=None):
 
 
 def case(c, stats):
-    schema, plan = c01.build_schema(c)
-    h = run_async(c01.make_harness(schema, plan))
+    mixed = c.maybe(25)  # documents that also define subscription operations; a query / mutation of them is executed
+    schema, plan = c01.build_schema(c, {"subscription": True} if mixed else None)
+    h = make_harness(schema, plan)
+    opts = dict(DOC_OPTS)
+    if mixed:
+        opts.update(op_types=["query", "subscription"] + (["mutation"] if schema["roots"].get("mutation") else []), max_ops=3)
     for _ in range(REQUESTS_PER_ENGINE):
-        spec, gstats = c01.build_request(c, schema, plan, DOC_OPTS)
+        only = None
+        if mixed:
+            only = "query"
+        spec, gstats = c01.build_request(c, schema, plan, opts, only_type=only)
+        if c.maybe(15):
+            # the k-th rewrite of the catalogue (lazily: enumerating them all costs more than the request itself)
+            k = c.int(0, 80)
+            last = None
+            for last in itertools.islice(mutants(schema, spec["doc"], limit_per_rewrite=1), k + 1):
+                pass
+            if last is not None:
+                spec["poison"] = last[3]
         check(spec, c, h)
         f = features(spec["doc"])
+        if spec.get("poison"):
+            f.add("after_an_invalid_twin")
+        if mixed and any(d["k"] == "op" and d["type"] == "subscription" for d in spec["doc"]["defs"]):
+            f.add("subscription_in_same_document")
         nontrivial = bool(f & {"shared_fragment", "fragment_in_several_operations", "directives_in_3_location_kinds"})
         sample = {"query": print_document(spec["doc"]).text, "features": sorted(f)}
         stats.case(spec, nontrivial, sorted(f) + [k for k in ("var_nested", "var_nn_via_default", "merged_key", "alias_to_avoid_conflict") if gstats.get(k)], sample)
